@@ -224,6 +224,18 @@ func OuterOf(a, b *ssa.Function) *ssa.Function {
 	if len(CallChains(b, a)) > 0 {
 		return b
 	}
+	// two helpers analysed as part of the same function (siblings): that function, when it is the only one
+	var common []*ssa.Function
+	for _, ra := range RootsOf(a) {
+		for _, rb := range RootsOf(b) {
+			if ra == rb {
+				common = append(common, ra)
+			}
+		}
+	}
+	if len(common) == 1 && (IsAbsorbed(a) || a == common[0]) && (IsAbsorbed(b) || b == common[0]) {
+		return common[0]
+	}
 	return nil
 }
 
